@@ -36,6 +36,7 @@ type Engine struct {
 	Pool   *SolverPool
 	abortFlag int32
 	Pool2  *SolverPool // fallback for unknown answers (may be nil)
+	SlowPools []*SolverPool // assertion-only last resort: long time limit
 	Fallbacks int64
 	Intr   map[string]Intrinsic
 	HPkgs  map[string]bool // harness package paths
@@ -186,6 +187,9 @@ func (e *Engine) Explore(entry *ssa.Function, initPkgs []*ssa.Package) {
 			case <-time.After(time.Until(e.Cfg.Deadline)):
 				e.abort("deadline exceeded")
 				e.Pool.KillAll()
+				for _, sp := range e.SlowPools {
+					sp.KillAll()
+				}
 				if e.Pool2 != nil {
 					e.Pool2.KillAll()
 				}
